@@ -5,7 +5,8 @@
 (* identifiers and versions to output directories (filename.py,            *)
 (* task_types/base.py).  Characters are numbers:                           *)
 (*   1 'a'  2 'Z'  3 '0'  4 '-'  5 '_'   identifier characters             *)
-(*   6 '/'  7 ':'  8 '.'  9 '\n'  10 ' '  11 '\t'  12 '*'                  *)
+(*   6 '/'  7 ':'  8 '.'  9 '\n'  10 ' '  11 '\t'  12 '*'  13 U+212A         *)
+(* (13: the Kelvin sign, a non-ASCII code point that case-folds to 'k')    *)
 (* (one representative per class: lower, upper, digit, the two allowed     *)
 (* punctuation marks, the separators, whitespace and control characters)   *)
 (***************************************************************************)
@@ -14,7 +15,7 @@ EXTENDS Naturals, Sequences, FiniteSets, TLC, Json, IOUtils
 CONSTANTS L          \* strings up to this length
 
 IdChars == 1..5
-AllChars == 1..12
+AllChars == 1..13
 SLASH == 6
 COLON == 7
 
